@@ -10,6 +10,10 @@ case kinds:
   {"k": "fhist", "default": lvl, "ops": [["set", ns, lvl] | ["clear"] | ["q", ns] | ["f", lvl|None, ns], ...]}
       a HISTORY of calls on ONE LogLevelFilterPredicate: setLogLevelForNamespace / clearLogLevels /
       logLevelForNamespace (observation: level index) / predicate(event) (observation: T|F)
+  {"k": "buf2", "size": n|None, "ops": [["e", n] | ["r"], ...]}   events and replayTo calls interleaved on ONE
+      LimitedHistoryLogObserver; observation: what each replay delivered
+  "pub" cases may carry "dup": [i, ...]: observer i is registered a second time through an EQUAL but not identical object
+      (a fresh bound method of the same sink object, as in addObserver(sink.emit) twice) — still one logical observer
   {"k": "publive", "tab": [[bad_ev, bad_err, act], ...], "os": [i, ...], "events": [n, ...]}
       EXTENSION: observer i, when it gets an ordinary event, first does act (None | ["add", o] | ["rm", o]: addObserver /
       removeObserver of observer o on the SAME publisher, i.e. while the event is being dispatched), then raises iff
@@ -38,23 +42,25 @@ def impl(case) -> str:
         class Boom(Exception):
             pass
 
-        def mk(i, bad_ev, bad_err):
-            def ob(event):
+        class Sink:
+            def __init__(self, i, bad_ev, bad_err):
+                self.i, self.bad_ev, self.bad_err = i, bad_ev, bad_err
+
+            def emit(self, event):
                 if "n" in event:
-                    out.append(f"{i}:e{event['n']}")
-                    if bad_ev:
+                    out.append(f"{self.i}:e{event['n']}")
+                    if self.bad_ev:
                         raise Boom()
                 else:
-                    out.append(f"{i}:x{obs.index(event['observer'])}")
-                    if bad_err:
+                    out.append(f"{self.i}:x{event['observer'].__self__.i}")
+                    if self.bad_err:
                         raise Boom()
-            return ob
-        obs = []
-        for i, (be, br) in enumerate(case["obs"]):
-            obs.append(mk(i, be, br))
+        sinks = [Sink(i, be, br) for i, (be, br) in enumerate(case["obs"])]
         pub = LogPublisher()
-        for o in obs:
-            pub.addObserver(o)
+        for x in sinks:
+            pub.addObserver(x.emit)
+        for i in case.get("dup", []):
+            pub.addObserver(sinks[i].emit)        # a new bound-method object, equal to the registered one
         for n in case["events"]:
             pub({"n": n})
         return " ".join(out)
@@ -118,6 +124,18 @@ def impl(case) -> str:
                 if op[1] is not None:
                     ev["log_level"] = L[op[1]]
                 res.append("T" if p(ev) is PredicateResult.maybe else "F")
+        return " ".join(res)
+    if k == "buf2":
+        from twisted.logger import LimitedHistoryLogObserver
+        h = LimitedHistoryLogObserver(case["size"])
+        res = []
+        for op in case["ops"]:
+            if op[0] == "e":
+                h({"n": op[1]})
+            else:
+                got = []
+                h.replayTo(lambda e: got.append(e["n"]))
+                res.append("[" + ",".join(map(str, got)) + "]")
         return " ".join(res)
     from twisted.logger import LimitedHistoryLogObserver
     h = LimitedHistoryLogObserver(case["size"])
@@ -246,6 +264,20 @@ def oracle(case, obs):
                         return Failure(case, f"op {n} {op}: decision {t}, expected {want} for the current configuration {cfg} "
                                        f"default {default}", "filter-history-stale-decision" if stale else "filter-decision")
         return None
+    if k == "buf2":
+        seen, size, want = [], case["size"], []
+        for op in case["ops"]:
+            if op[0] == "e":
+                seen.append(op[1])
+            else:
+                w = seen if size is None else (seen[max(0, len(seen) - size):] if size else [])
+                want.append("[" + ",".join(map(str, w)) + "]")
+        got = obs.split(" ") if obs else []
+        for n, (a, b) in enumerate(zip(got + ["?"] * len(want), want)):
+            if a != b:
+                return Failure(case, f"replay number {n} delivered {a}, expected the last {size} of {seen}: {b}",
+                               "buffer-last-n" if n == 0 else "buffer-later-replay")
+        return None
     ev, size = case["events"], case["size"]
     want = ev if size is None else (ev[max(0, len(ev) - size):] if size else [])
     if obs != "[" + ",".join(map(str, want)) + "]":
@@ -313,6 +345,19 @@ def gen(rng, tier):
             else:
                 ops.append(["f", rng.choice([None, 0, 1, 2, 3, 4]), ns])
         cases.append({"k": "fhist", "default": rng.randrange(5), "ops": ops})
+    # one logical observer registered twice through equal-but-not-identical objects
+    for n in range(1, 5):
+        for d in range(n):
+            for pat in ((False, False), (True, False), (True, True)):
+                cases.append({"k": "pub", "obs": [list(pat) if i == d else [False, False] for i in range(n)], "events": [1, 2],
+                              "dup": [d] + ([0] if n > 2 else [])})
+    # replays interleaved with events on one buffer
+    for size in [None, 0, 1, 2, 3, 5]:
+        for _ in range(6 if tier == "quick" else 60):
+            ops = []
+            for _ in range(rng.randrange(2, 16)):
+                ops.append(["r"] if rng.random() < 0.3 else ["e", rng.randrange(100)])
+            cases.append({"k": "buf2", "size": size, "ops": ops + [["r"], ["e", 7], ["r"], ["r"]]})
     # buffer: N from 0 up, stream lengths around N
     for size in [None, 0, 1, 2, 3, 5, 8]:
         for ln in range(0, 12):
@@ -330,6 +375,8 @@ def corpus():
         {"k": "publive", "tab": [[False, False, ["rm", 0]], [False, False, None], [False, False, None]], "os": [0, 1, 2], "events": [7, 8]},
         {"k": "publive", "tab": [[True, False, ["add", 3]], [False, True, None], [False, False, ["add", 0]], [True, True, ["add", 1]]],
          "os": [0, 1, 2], "events": [1, 2]},
+        {"k": "buf2", "size": 3, "ops": [["e", 1], ["e", 2], ["e", 3], ["e", 4], ["r"], ["r"], ["e", 5], ["r"]]},
+        {"k": "pub", "obs": [[False, False], [True, False]], "events": [1], "dup": [0, 1]},
         {"k": "buf", "size": 0, "events": [1, 2, 3]},
         {"k": "buf", "size": 3, "events": [1, 2, 3, 4, 5]},
     ]
@@ -371,6 +418,10 @@ def to_coq(case):
                 return f"FQuery {coq_list(map(str, _seg_ids(o[1])), 'nat')}"
             return f"FFilter {coq_option(None if o[1] is None else str(o[1]), 'nat')} {coq_list(map(str, _seg_ids(o[2])), 'nat')}"
         return f"CFHist {case['default']} {coq_list(map(fop, case['ops']), 'fop')}"
+    if k == "buf2":
+        size = coq_option(None if case["size"] is None else str(case["size"]), "nat")
+        ops = ["BReplay" if o[0] == "r" else f"BEvent {o[1]}" for o in case["ops"]]
+        return f"CBuf2 {size} {coq_list(ops, 'bop')}"
     size = coq_option(None if case["size"] is None else str(case["size"]), "nat")
     return f"CBuf {size} {coq_list(map(str, case['events']), 'nat')}"
 
@@ -398,13 +449,13 @@ SPEC = Spec(
     coq_header="From C57 Require Import Model Run.",
     coq_fn="run_show",
     to_coq=to_coq,
-    nontrivial=lambda c, o: (c["k"] == "pub" and ":x" in o) or (c["k"] == "publive" and any(x[2] is not None for x in c["tab"])) or (c["k"] == "filter" and bool(c["sets"])) or (c["k"] == "fhist" and any(o[0] == "set" for o in c["ops"])) or (c["k"] == "buf" and len(c["events"]) > (c["size"] or 0)),
+    nontrivial=lambda c, o: (c["k"] == "pub" and ":x" in o) or (c["k"] == "publive" and any(x[2] is not None for x in c["tab"])) or (c["k"] == "filter" and bool(c["sets"])) or (c["k"] == "fhist" and any(o[0] == "set" for o in c["ops"])) or (c["k"] == "buf" and len(c["events"]) > (c["size"] or 0)) or (c["k"] == "buf2"),
     histogram=lambda c, o: c["k"],
     rule="publisher: every raise pattern (ok / raises on events / raises on failure reports / both) for 0-4 observers "
          "(thorough 0-5; largest size sampled) plus random sets of 5-7 observers, 1-3 events; extension: 2-6 observers that add / remove observers of the publisher while an event is dispatched (half of the cases without removals), some raising, 1-3 events; filter: random configurations of "
          "0-5 namespaces drawn from segments a,b,bc,c,ab,x (shared string prefixes a.b / a.bc), default set through the empty "
          "namespace, queries with and without level, on configured names and their extensions; filter histories: 4-29 interleaved set / clear / query / filter calls on ONE predicate over a family of namespaces sharing dotted prefixes (each queried repeatedly before and after changes to its ancestors, itself and the default); buffer: N in {None,0,1,2,3,5,8} "
-         "x stream lengths 0-11; non-trivial = a failure report delivered / a configured filter / an overflowing buffer",
+         "x stream lengths 0-11; replays interleaved with events on one buffer (several replays, events in between); observers registered twice through equal-but-not-identical bound methods; non-trivial = a failure report delivered / a configured filter / an overflowing buffer",
     trusted=["hand-written model coq/C57/Model.v (tied by this correspondence run only)",
              "observers that add/remove observers during a dispatch (extension, outside the property's quantifier) are modelled "
              "with a live list iterator; with removals the behaviour is pinned by the correspondence only (no oracle claim)",
